@@ -1459,3 +1459,7 @@ mod queue_tests {
         assert!(queue.pop_duplicates().unwrap().is_none());
     }
 }
+
+#[cfg(kani)]
+#[path = "/verif/kani/aranya-runtime/storage_mod.rs"]
+mod verif_kani;
